@@ -27,6 +27,9 @@ syntactically; anything that does not meet them is left alone):
     once at module level and never stored to elsewhere: its uses inside functions (parameter defaults included) are
     replaced by the literal.
  E. `x = a if c else b` as a statement is replaced by `if c: x = a` / `else: x = b`.
+ H. a keywords-only `dict(k=v, ...)` becomes the literal `{"k": v, ...}`;  G (only with H). `{}` becomes `dict()`.
+ I. two consecutive `if`s without `else`, with textually identical bodies ending in raise / return / continue /
+    break, become one `if a or b`.
  F. named intermediates.  `x = e` where e is built from names, attribute chains, constants, arithmetic, comparisons,
     subscripts, conditional expressions and calls of max / min / len / int / bool / abs / exact_log2 / ceil_log2 /
     isinstance only, x is stored nowhere else, is loaded exactly once in the whole function, and that load is in the
@@ -381,8 +384,54 @@ def _inline_intermediates(fn):
     fn.body = block(fn.body)
 
 
+# ------------------------------------------------------------------ H. dict spellings, I. split conditions
+
+class _DictSpelling(ast.NodeTransformer):
+    """`{}` -> `dict()`;  `dict(k=v, ...)` (keywords only) -> `{"k": v, ...}`  (the two spellings the library itself uses)"""
+    def __init__(self, empty_too):
+        self.empty_too = empty_too
+
+    def visit_Dict(self, n):
+        self.generic_visit(n)
+        if not n.keys and self.empty_too:
+            return ast.Call(func=ast.Name(id="dict", ctx=ast.Load()), args=[], keywords=[])
+        return n
+
+    def visit_Call(self, n):
+        self.generic_visit(n)
+        if isinstance(n.func, ast.Name) and n.func.id == "dict" and not n.args and n.keywords \
+                and all(k.arg is not None for k in n.keywords):
+            return ast.Dict(keys=[ast.Constant(value=k.arg) for k in n.keywords], values=[k.value for k in n.keywords])
+        return n
+
+
+def _merge_split_conditions(stmts):
+    """two consecutive `if` statements without `else` whose bodies are the same text and end in raise / return /
+    continue / break are one `if a or b` (the second test is only evaluated when the first is false either way)"""
+    out = []
+    for st in stmts:
+        for f in ("body", "orelse", "finalbody"):
+            if hasattr(st, f) and isinstance(getattr(st, f), list) and getattr(st, f):
+                setattr(st, f, _merge_split_conditions(getattr(st, f)))
+        if isinstance(st, ast.Try):
+            for h in st.handlers:
+                h.body = _merge_split_conditions(h.body)
+        prev = out[-1] if out else None
+        if isinstance(st, ast.If) and isinstance(prev, ast.If) and not st.orelse and not prev.orelse \
+                and isinstance(st.body[-1], (ast.Raise, ast.Return, ast.Continue, ast.Break)) \
+                and [ast.dump(x) for x in st.body] == [ast.dump(x) for x in prev.body]:
+            a = prev.test.values if isinstance(prev.test, ast.BoolOp) and isinstance(prev.test.op, ast.Or) else [prev.test]
+            b = st.test.values if isinstance(st.test, ast.BoolOp) and isinstance(st.test.op, ast.Or) else [st.test]
+            prev.test = ast.BoolOp(op=ast.Or(), values=list(a) + list(b))
+            continue
+        out.append(st)
+    return out
+
+
 # the sets of rewritings tried, in this order, after the text as written (a stage stops at the first that works)
-READINGS = ["D", "DAC", "DACB", "DACE", "DACBE", "DACBF", "DACBEF"]
+READINGS = ["D", "DI", "DH", "DAC", "DACI", "DHI", "DGHI", "DACHI", "DACGHI", "DACB", "DACBI", "DACBHI", "DACBGHI", "DACE",
+            "DACEI", "DACBE", "DACBF", "DACBEF", "DACBEFGHI"]
+MAX_COMPILED = 4          # at most this many of them are carried through coqc per stage (translation itself is cheap)
 LEVELS = len(READINGS)
 
 
@@ -411,6 +460,10 @@ def normalize(tree, level=LEVELS):
                 _inline_intermediates(n)
     if "E" in rules:
         tree = _IfExpAssign().visit(tree)
+    if "H" in rules:
+        tree = _DictSpelling("G" in rules).visit(tree)
+    if "I" in rules:
+        tree.body = _merge_split_conditions(tree.body)
     ast.fix_missing_locations(tree)
     # give every node the text positions of a fresh parse of the normalised program
     return _REAL_PARSE(ast.unparse(tree))
